@@ -158,7 +158,7 @@ def make_run(db, roots, bulk, client, cut_rows=None):
             return out
 
         ag.bulk_cut = cut
-        sender = client.sender
+        sender = world.sender_of(client)
         sender.handle = ag.handle
         sender.calls = []
         sender.limit = horizon + 2 * ctx_deviation_allowance(ctx)
@@ -214,7 +214,7 @@ def ctx_deviation_allowance(ctx):
 
 def getnext_walk(db, roots, client):
     ag = ragent.Agent(db)
-    sender = client.sender
+    sender = world.sender_of(client)
     sender.handle = ag.handle
     sender.calls = []
     sender.limit = len(db) + len(roots) + 3
